@@ -140,7 +140,9 @@ def run(ctx):
             items = v[1]
             if ans.body != b"tb":
                 bad("tuple-body", det, ans)
-            if len(items) > 1 and \
+            # a 304 answer carries no representation headers (RFC 9110
+            # 15.4.5; the framework leaves Content-Type/-Length out)
+            if len(items) > 1 and ans.code != 304 and \
                     ans.header("Content-Type") != "application/x-t":
                 bad("tuple-content-type", det, ans)
             if len(items) > 2:
